@@ -13,7 +13,7 @@ src = f"/tmp/seeded_out/{pid}/{x}"
 dst = f"/verif/seeded/{pid}-{x}"
 wt = f"/tmp/sw/{pid}{x}"
 run = lambda cmd, **kw: subprocess.run(cmd, shell=True, capture_output=True, text=True, **kw)
-meta = {"property": pid[:3], "variant": x, "round": 2 if pid.endswith("v2") else 1}
+meta = {"property": pid[:3], "variant": x, "round": 3 if pid.endswith("v3") else (2 if pid.endswith("v2") else 1)}
 notes = {}
 try:
     notes = json.load(open(f"{src}/notes.json"))
